@@ -129,18 +129,16 @@ fn c15_gzi_query_arbitrary_index_no_panic() {
 // ------------------------------------------------------------------------------------------------
 // C12 O12.1 default_read_exact under adversarial chunking
 
-fn read_exact_case<const L: usize, const W: usize>() {
+fn read_exact_case<const L: usize, const W: usize>(interrupts: u8) {
     let data: [u8; L] = kani::any();
     let mut want = [0u8; W];
-    let mut src = Chunky::new(&data, 2);
+    let mut src = Chunky::new(&data, interrupts);
     let r = kind_of(crate::io::reader::default_read_exact(&mut src, &mut want));
     if W <= L {
         assert!(r.is_ok());
-        let mut i = 0;
-        while i < W {
-            assert_eq!(want[i], data[i]);
-            i += 1;
-        }
+        let i: usize = kani::any();
+        kani::assume(i < W);
+        assert_eq!(want[i], data[i]);
         assert_eq!(src.pos, W);
     } else {
         // a short read is never mistaken for success; EOF only after all bytes were delivered
@@ -150,25 +148,32 @@ fn read_exact_case<const L: usize, const W: usize>() {
     kani::cover!(src.calls > 2);
 }
 
-// @verif prop=C12 id=O12.1a tier=quick unwind=8 bound="4-byte stream, want 3 bytes; every split into short reads, <=2 Interrupted at any call" fns="bgzf::io::reader::default_read_exact"
+// @verif prop=C12 id=O12.1a tier=quick unwind=7 bound="5-byte stream, want 4 bytes; EVERY partition into short reads (no Interrupted)" fns="bgzf::io::reader::default_read_exact"
 #[kani::proof]
-#[kani::unwind(8)]
-fn c12_default_read_exact_enough_data() {
-    read_exact_case::<4, 3>();
+#[kani::unwind(7)]
+fn c12_default_read_exact_any_partition() {
+    read_exact_case::<5, 4>(0);
 }
 
-// @verif prop=C12 id=O12.1b tier=quick unwind=8 bound="2-byte stream, want 3 bytes (premature EOF); every split, <=2 Interrupted" fns="bgzf::io::reader::default_read_exact"
+// @verif prop=C12 id=O12.1b tier=quick unwind=7 bound="2-byte stream, want 4 bytes (premature EOF); every partition (no Interrupted)" fns="bgzf::io::reader::default_read_exact"
 #[kani::proof]
-#[kani::unwind(8)]
+#[kani::unwind(7)]
 fn c12_default_read_exact_short_stream() {
-    read_exact_case::<2, 3>();
+    read_exact_case::<2, 4>(0);
 }
 
-// @verif prop=C12 id=O12.1c tier=thorough unwind=10 bound="5-byte stream, want 5 bytes; every split, <=2 Interrupted" fns="bgzf::io::reader::default_read_exact"
+// @verif prop=C12 id=O12.1c tier=quick unwind=7 bound="3-byte stream, want 3 bytes; every partition and <=1 Interrupted at any call" fns="bgzf::io::reader::default_read_exact"
+#[kani::proof]
+#[kani::unwind(7)]
+fn c12_default_read_exact_interrupted() {
+    read_exact_case::<3, 3>(1);
+}
+
+// @verif prop=C12 id=O12.1d tier=thorough unwind=10 bound="6-byte stream, want 6 bytes; every partition, <=2 Interrupted" fns="bgzf::io::reader::default_read_exact"
 #[kani::proof]
 #[kani::unwind(10)]
-fn c12_default_read_exact_5() {
-    read_exact_case::<5, 5>();
+fn c12_default_read_exact_6_two_interrupts() {
+    read_exact_case::<6, 6>(2);
 }
 
 // ------------------------------------------------------------------------------------------------
